@@ -643,7 +643,19 @@ def execute(plan):
                     blocked = w.blocked(m, sorted(w.reg[m]))
                     outcome = 'removed-all'
                     if kind == 'exit':
-                        mgr.__exit__(None, None, None)
+                        # the with-block is left normally, through a CIM
+                        # error, or through another exception
+                        how = (i + m) % 3
+                        if how == 0:
+                            mgr.__exit__(None, None, None)
+                        else:
+                            exc = CIMError(11, 'raised in the with-block') \
+                                if how == 1 else KeyError('in the with-block')
+                            bump(probes, 'exit_through_' + type(exc).__name__)
+                            if mgr.__exit__(type(exc), exc, None):
+                                viol('exit-swallows-exception',
+                                     'step %d: __exit__ returned true for %r'
+                                     % (i, exc))
                     else:
                         mgr.remove_all_servers()
                     regs = sorted(w.reg[m])
